@@ -35,7 +35,76 @@ func main() {
 	run.Floor("refused_nonauthentic", 20000)
 	run.Floor("accepted_authentic", 50)
 	run.Floor("cross_shared_key_refused", 1)
+	run.Floor("replay_after_acceptance_refused", 200)
 	run.Units("cfg", units, 0, func(unit int64, r *rand.Rand) { config(run, unit, r) })
+	run.Units("replay", run.Pick(150, 5000), 0, func(unit int64, r *rand.Rand) { replayAfterAcceptance(run, unit, r) })
+}
+
+// replayAfterAcceptance: the SAME witness instance first accepts authentic checkpoints of
+// some logs; exactly those bytes (as submitted, and as returned cosigned) are then submitted
+// under every other configured ID, before and after that ID holds something.
+func replayAfterAcceptance(run *ev.Run, unit int64, r *rand.Rand) {
+	u := gen.NewUniverse(r, gen.Opts{NLogs: 2 + r.IntN(4), MaxSize: 12, Branches: 1, ShareKeys: true})
+	keys, _ := wit.NewWitKeys(r, []bool{false, true}, true)
+	st, _ := wit.NewStore([]string{"mem", "sqlmem"}[r.IntN(2)], "")
+	defer st.Close()
+	rn, err := wit.NewRunner(u, keys, st, nil)
+	if err != nil {
+		run.Inconclusive(err.Error())
+		return
+	}
+	ctx := context.Background()
+	type mat struct {
+		from *gen.Log
+		raw  []byte
+		kind string
+	}
+	var pool []mat
+	size := map[*gen.Log]uint64{}
+	for round := 0; round < 3; round++ {
+		for _, l := range u.Logs {
+			if r.IntN(3) == 0 {
+				continue // some logs stay empty for a while
+			}
+			nx := size[l] + 1 + uint64(r.IntN(3))
+			cp := l.Honest(0, nx)
+			if r.IntN(3) == 0 {
+				text := refnote.Body(l.Origin, nx, l.Root(0, nx), "ext")
+				cp = l.Note(r, l.Key, text, gen.Deco{UnknownSig: r.IntN(3)})
+			}
+			ret, err := rn.W.Update(ctx, l.ID, size[l], cp, l.Branches[0].Consistency(size[l], nx))
+			if err != nil {
+				continue
+			}
+			size[l] = nx
+			pool = append(pool, mat{l, cp, "replay_submitted_bytes"}, mat{l, ret, "replay_cosigned_bytes"})
+		}
+		snap := rn.Snap()
+		for _, m := range pool {
+			for _, o := range u.Logs {
+				if o == m.from {
+					continue
+				}
+				for _, old := range []uint64{0, size[o]} {
+					ret, err := rn.W.Update(ctx, o.ID, old, m.raw, nil)
+					after := rn.Snap()
+					run.Count("evaluations")
+					auth, _ := o.Judge(m.raw)
+					h := sha256.Sum256(append([]byte(o.ID+"\x00"), m.raw...))
+					run.Distinct("nontrivial", string(h[:10]))
+					changed := !after.Equal(snap)
+					if !auth && (err == nil || changed) {
+						run.Violate("nonauthentic_accepted;kind="+m.kind+fmt.Sprintf(";shared_key=%v", o.Key == m.from.Key), fmt.Sprintf("bytes the witness had accepted for log %q were accepted/stored under log %q: err=%v changed=%v", m.from.Origin, o.Origin, err, changed), unit, map[string]any{"cp": string(m.raw), "ret": string(ret), "store": st.Kind})
+						return
+					}
+					if err != nil && !changed {
+						run.Count("replay_after_acceptance_refused")
+					}
+					snap = after
+				}
+			}
+		}
+	}
 }
 
 func config(run *ev.Run, unit int64, r *rand.Rand) {
